@@ -33,3 +33,27 @@ pub(crate) fn verif_memchr_stub(needle: u8, haystack: &[u8]) -> Option<usize> {
     }
     None
 }
+
+#[allow(dead_code)]
+pub(crate) fn verif_memchr2_stub(n1: u8, n2: u8, haystack: &[u8]) -> Option<usize> {
+    let mut i = 0;
+    while i < haystack.len() {
+        if haystack[i] == n1 || haystack[i] == n2 {
+            return Some(i);
+        }
+        i += 1;
+    }
+    None
+}
+
+#[allow(dead_code)]
+pub(crate) fn verif_memchr3_stub(n1: u8, n2: u8, n3: u8, haystack: &[u8]) -> Option<usize> {
+    let mut i = 0;
+    while i < haystack.len() {
+        if haystack[i] == n1 || haystack[i] == n2 || haystack[i] == n3 {
+            return Some(i);
+        }
+        i += 1;
+    }
+    None
+}
